@@ -26,6 +26,13 @@ struct PreSrc: Src
         }
     }
 
+    // The i-th value counted from the END of the pre-drawn block, without consuming anything: decisions added to a check later
+    // take their values from here, so that the sequential decisions (and therefore every saved tape) stay what they were.
+    uint64_t tail(size_t i, uint64_t n) const
+    {
+        return (n <= 1 || i >= pre.size()) ? 0 : pre[pre.size() - 1 - i] % n;
+    }
+
 protected:
     uint64_t raw(uint64_t n) override
     {
@@ -105,8 +112,17 @@ enum Where
 {
     INSIDE = 0,
     ANYWHERE = 1,
-    EQUIVALENCES = 2
+    EQUIVALENCES = 2,
+    // only the kinds about the import reference of an entity that has no import source (added later; kept apart so that the
+    // kind numbering of the other modes, and with it every saved tape, is unchanged): comp/units.local-import-ref (the
+    // reference of a non-import differs) and comp/units.import-source-removed (an import loses its source, the reference stays)
+    LOCAL_IMPORT_REFERENCE = 3
 };
+// ModelSpec convention used by C10/C11: import < 0 with a non-empty importRef = an entity that is not an import but carries an
+// import reference. buildApi() does not set it; this does (directly, or - viaSource - by importing and removing the source again).
+void applyLocalImportReferences(const ModelSpec &spec, const Built &b, bool viaSource);
+// Gives a tape-chosen non-import component or units of the spec an import reference; returns a label ("" if none exists).
+std::string addLocalImportReference(ModelSpec &spec, uint64_t pick, const std::string &reference);
 std::vector<Mut> enumerateMutations(const ModelSpec &spec, const Loc &top, Where where);
 // Chooses a kind uniformly among the kinds present, then a site uniformly. *found = false when the list is empty.
 Mut chooseMutation(const ModelSpec &spec, const Loc &top, Src &src, Where where, bool *found);
